@@ -5,7 +5,7 @@ set -u
 WT=$1; OUT=$2
 cd "$WT" || exit 2
 git checkout -q -- . && git clean -fdq -e target
-DEMO_CMD=$(python3 -c "import json;print(json.load(open('$OUT/meta.json'))['demo_cmd'])")
+DEMO_CMD=$(python3 -c "import json;print(json.load(open('$OUT/meta.json'))['demo_cmd'].replace('<worktree>','$WT'))")
 echo "demo_cmd: $DEMO_CMD"
 git apply "$OUT/demo.diff" || { echo "demo.diff does not apply"; exit 2; }
 if bash -c "$DEMO_CMD" > "$OUT/verify_demo_pristine.log" 2>&1; then echo "1 demo passes on pristine: OK"; R1=ok; else echo "1 demo FAILS on pristine: BAD"; R1=bad; fi
